@@ -37,16 +37,21 @@ def alternatives(s, guards=()):
     if isinstance(s, vg.S) and s.op in ("phi", "ifexp"):
         yield from alternatives(s.args[1], guards + ((s.args[0], True),))
         yield from alternatives(s.args[2], guards + ((s.args[0], False),))
+    elif isinstance(s, vg.S) and s.op == "neg" and isinstance(s.args[0], vg.S) and s.args[0].op in ("phi", "ifexp"):
+        for g, v in alternatives(s.args[0], guards):
+            yield g, vg.mk("neg", v)
     else:
         yield guards, s
 
 
 def guard_consts(guards):
+    """(mode constant, effective truth): `x == 'c'` taken or `x != 'c'` not taken select mode c"""
     out = []
     for t, b in guards:
         for n in vg.walk(t):
-            if n.op == "const" and isinstance(n.args[0], str):
-                out.append((n.args[0], b))
+            if n.op in ("==", "!=") and any(isinstance(a, vg.S) and a.op == "const" and isinstance(a.args[0], str) for a in n.args):
+                c = [a.args[0] for a in n.args if isinstance(a, vg.S) and a.op == "const" and isinstance(a.args[0], str)][0]
+                out.append((c, b if n.op == "==" else (not b)))
             if n.op == "selfattr":
                 out.append(("self." + n.args[0], b))
     return out
@@ -280,6 +285,20 @@ def pred_mdcpdp(atoms_):
     return ok, "max / sum over per-depot lengths by mode" if ok else "mode reductions (max for minmax, sum for minsum) not found"
 
 
+def pred_reduce_last(which):
+    def f(atoms_):
+        for a in atoms_:
+            for n in vg.walk(a):
+                fn = nf._fn(n)
+                if fn == f"torch.{which}" or (n.op == "meth" and n.args[1] == which):
+                    args = n.args[2:] if n.op == "call" else n.args[2:]
+                    dims = [x.args[1] for x in n.args[1:] if isinstance(x, vg.S) and x.op == "kw" and x.args[0] == "dim"] + [x for x in args if isinstance(x, vg.S) and x.op == "const"]
+                    ok = any(vg.is_const(d, -1) for d in dims)
+                    return ok, f"{which} over the per-depot axis (dim -1): {ok}"
+        return False, f"no {which} over the per-depot lengths"
+    return f
+
+
 PREDS = {
     "closed-tour": lambda at: pred_closed_tour(at, False),
     "closed-tour-from-depot": lambda at: pred_closed_tour(at, True),
@@ -291,6 +310,8 @@ PREDS = {
     "max-finish": pred_max_finish,
     "min-then-sum": pred_min_then_sum,
     "mdcpdp-modes": pred_mdcpdp,
+    "max-last": pred_reduce_last("max"),
+    "sumfn-last": pred_reduce_last("sum"),
     "cell": lambda at: (True, "reads the accumulated cell"),
 }
 
@@ -309,15 +330,25 @@ def check_terms(ctx: Ctx, env: EnvA, sl, mode, val, terms):
     monos = p.monos()
     used = set()
     tag = f"{env.name}._get_reward[{mode or 'default'}]"
-    for ti, t in enumerate(terms):
-        found = None
+    order = sorted(range(len(terms)), key=lambda i: -len(terms[i].cells))
+    chosen = {}
+    for ti in order:
+        t = terms[ti]
+        best = None
         for mi, (c, fs) in enumerate(monos):
             if mi in used:
                 continue
             cells, attrs, acts = mono_info(fs)
             if t.cells <= cells and t.attrs <= attrs and acts == t.actions and abs(c) == 1:
-                found = mi
-                break
+                extra = len(cells - t.cells)
+                if best is None or extra < best[0]:
+                    best = (extra, mi)
+        if best is not None:
+            chosen[ti] = best[1]
+            used.add(best[1])
+    used = set()
+    for ti, t in enumerate(terms):
+        found = chosen.get(ti)
         inst = f"{tag}:term{ti}:{'+' if t.sign > 0 else '-'}{'/'.join(sorted(t.cells))}"
         if found is None:
             have = [(float(c), sorted(mono_info(fs)[0]), mono_info(fs)[2]) for c, fs in monos]
@@ -492,7 +523,17 @@ def run(ctx: Ctx):
         ret = sl.fr.ret
         if not isinstance(ret, vg.S):
             raise AnalysisError(f"{cname}._get_reward: return not resolved")
-        alts = list(alternatives(ret))
+        alts = []
+        for cond, v in sl.fr.returns:
+            g0 = []
+            items = list(cond.args) if (cond is not None and cond.op == "and") else ([cond] if cond is not None else [])
+            for it_ in items:
+                if it_.op == "not":
+                    g0.append((it_.args[0], False))
+                else:
+                    g0.append((it_, True))
+            if isinstance(v, vg.S):
+                alts.extend(alternatives(v, tuple(g0)))
         triv = [a for a in alts if is_trivial(*a)]
         for g, v in triv:
             pz = nf.poly(v)
@@ -510,11 +551,15 @@ def run(ctx: Ctx):
         rest = [x for x in nontriv if x[1].id not in taken]
         for sel, terms in specs:
             if sel not in assigned:
-                assigned[sel] = rest
+                # alternatives explicitly guarded AGAINST this mode (x != 'mode' taken, x == 'mode' not taken) do not compute it
+                assigned[sel] = [x for x in rest if not any(k == sel and not b for k, b in x[2])]
         for sel, terms in specs:
             cands = assigned[sel]
             if not cands:
-                raise AnalysisError(f"{cname}._get_reward: no alternative found for mode {sel!r}")
+                ctx.ob("C03.c", f"{cname}._get_reward[{sel}]:mode-selected", False, sl.where,
+                       f"no return path of _get_reward is taken exactly when the mode is {sel!r}: the objective of that mode is never (or wrongly) selected",
+                       construct=f"{sl.fi.qualname}:{sel}:mode-selection")
+                continue
             seen = set()
             for guards, val, gc in cands:
                 if val.id in seen:
